@@ -138,3 +138,35 @@ Print Assumptions C08_unknown_init_normal_equations.
 Print Assumptions C08_observed_rows.
 Print Assumptions C08_generated_periods_ok.
 Print Assumptions C08_output_mapping.
+
+(* ---- round 4: the model OBJECT as a state machine (model/KalmanSession.v; proofs/KalmanSessionProofs.v) ----
+   A model is a list of variants (values, solution with its two memo lists of expansion matrices); operations
+   assign / solve / alter_num_variants / kalman_filter (both modes) / simulate.  `arun` is the specification
+   machine: it stores no solution and no cache, and answers a call with a function of the variant's current
+   values, the values it was last solved for, the mode and the variant's data column only.  The black boxes
+   (assign1, solve1, devsol, expand, kf, sim) are arbitrary functions. *)
+From Verif.model Require KalmanSession.
+From Verif.proofs Require KalmanSessionProofs.
+
+(* variant pointwise: output k of a filter / simulate call on a model with any number of variants is the output of
+   the same call on the single-variant model made of variant k, with data column k *)
+Theorem C08_call_variant_pointwise (P S E D O : Type) (devsol : S -> S) (expand : bool -> S -> nat -> E)
+    (fwd_of : D -> option nat) (kf sim : S -> P -> list E -> D -> O)
+    (b dev : bool) (vs : list (KalmanSession.variant P S E)) (ds : list D) (dd : D) (k : nat)
+    (dflt : KalmanSession.variant P S E) :
+  lt k (length vs) ->
+  List.nth k (List.map snd (KalmanSession.call_model P S E D O devsol expand fwd_of kf sim b dev vs ds dd)) None
+  = List.nth 0%nat (List.map snd (KalmanSession.call_model P S E D O devsol expand fwd_of kf sim b dev (cons (List.nth k vs dflt) nil)
+                                 (cons (KalmanSession.etl ds dd k) nil) dd)) None.
+Proof. exact (KalmanSessionProofs.call_pointwise P S E D O devsol expand fwd_of kf sim b dev vs ds dd k dflt). Qed.
+
+(* every session started on a freshly built and solved model returns what the specification machine returns *)
+Theorem C08_session_from_fresh_refines (P X S E D O : Type) (assign1 : X -> P -> P) (solve1 : P -> S) (devsol : S -> S)
+    (expand : bool -> S -> nat -> E) (fwd_of : D -> option nat) (kf sim : S -> P -> list E -> D -> O)
+    (ops : list (KalmanSession.op X D)) (p : P) :
+  fst (KalmanSession.run P X S E D O assign1 solve1 devsol expand fwd_of kf sim ops (KalmanSession.fresh P S E solve1 p))
+  = fst (KalmanSession.arun P X S E D O assign1 solve1 devsol expand fwd_of kf sim ops (cons (KalmanSession.mkAv P p (Some p)) nil)).
+Proof. exact (KalmanSessionProofs.session_from_fresh_refines P X S E D O assign1 solve1 devsol expand fwd_of kf sim ops p). Qed.
+
+Print Assumptions C08_call_variant_pointwise.
+Print Assumptions C08_session_from_fresh_refines.
